@@ -24,6 +24,40 @@ func waitCalls(fn *ssa.Function) []CallSite {
 func runC14(c *Ctx) {
 	p := c.P
 
+	c.Rule("C14-D5", "every interval is probed: in the server's pingPong loop no path leads from one sleep of pingInterval to the next without sending the PING and without waiting for the PONG — the client's "+
+		"watchdog closes a connection on which no PING arrives for pingInterval + pingTimeout, so a ping skipped because 'the client was heard from anyway' kills exactly the busy, healthy connections", 2)
+	{
+		fn := p.Fn("eio", "serverSocket.pingPong")
+		sleeps := CallsTo(Calls(fn), `time\.Sleep`)
+		var sl ssa.Instruction
+		for _, cs := range sleeps {
+			if len(cs.Common().Args) == 1 && Term(cs.Common().Args[0]) == "pingInterval" && inLoop(cs.Instr.Block()) {
+				sl = cs.Instr
+			}
+		}
+		if sl == nil {
+			c.Undecided("C14-D5: the sleep of pingInterval in pingPong's loop was not recognised")
+		} else {
+			again := func(in ssa.Instruction) bool { return in == sl }
+			skipPing, t1 := CanReachAvoiding(fn, sl, again, callPred(`\(\*eio\.serverSocket\)\.Send`))
+			c.Ob("C14-D5", "eio.serverSocket.pingPong/ping-every-interval", sl.Pos(), !skipPing, "an iteration of the ping loop reaches the next sleep without sending a PING: "+trailString(p, t1))
+			waitsPong := func(in ssa.Instruction) bool {
+				se, ok := in.(*ssa.Select)
+				if !ok {
+					return false
+				}
+				for _, st := range se.States {
+					if strings.HasSuffix(Term(st.Chan), ".pongChan") {
+						return true
+					}
+				}
+				return false
+			}
+			skipWait, t2 := CanReachAvoiding(fn, sl, again, waitsPong)
+			c.Ob("C14-D5", "eio.serverSocket.pingPong/pong-awaited-every-interval", sl.Pos(), !skipWait, "an iteration of the ping loop reaches the next sleep without waiting for the PONG: "+trailString(p, t2))
+		}
+	}
+
 	c.Rule("C14-D1", "bound arithmetic: the server's ping loop sleeps pingInterval, then waits pingTimeout for the pong after sending a PING; the client's watchdog waits pingInterval+pingTimeout; both durations flow unchanged from the server configuration / the handshake, and announced and parsed values use the same unit", 14)
 	{
 		fn := p.Fn("eio", "serverSocket.pingPong")
